@@ -35,6 +35,8 @@ def run(tier):
     lk.validate(c, out, FLAGS, "stress-inmem", chunks=1)
     out, _ = lk.drive(c, "stress", "stress-redis", variant="redis", n=nstress_redis)
     lk.validate(c, out, FLAGS, "stress-redis", chunks=1)
+    out, _ = lk.drive(c, "rawstress", "rawstress", n=8 if c.quick() else 80)
+    lk.validate(c, out, FLAGS, "rawstress", chunks=1)
     # the recorded finding: a release that reaches the store after the lease ran out
     out, _ = lk.drive(c, "latedelete", "latedelete")
     lk.validate(c, out, FLAGS, "latedelete", chunks=1)
@@ -46,7 +48,8 @@ def run(tier):
     return c.finish(rule="schedules = command histories of every transition of KvLock.tla (2 callers on 2 lockers, 2 callers sharing a locker"
                          "%s; Lock/TryLock/LockWithCtx, cancellation, shutdown, request-lost and reply-lost faults on Create/Delete/Wait, lease "
                          "expiry of unowned records) played on real kvsLock objects over a gated facade of a real in-memory store, plus seeded "
-                         "random schedules on 2-4 callers and ungated stress on the in-memory and Redis(miniredis) backends; every recorded "
+                         "random schedules on 2-4 callers, ungated stress on the in-memory and Redis(miniredis) backends and 2-6 callers spinning on "
+                         "TryLock/Unlock of providers that sit directly on the store (real parallelism inside the storage calls); every recorded "
                          "history validated by TLC against LockTrace.tla with mutual exclusion enforced"
                          % ("" if c.quick() else ", 3 callers"))
 
